@@ -43,7 +43,9 @@ Shapes == <<
   ColShape("ffcc01", ""), ColShape("ff01cc", ""), ColShape("01ffcc", ""), ColShape("aab1cc", ".5"),
   \* numbers with more than four significant digits
   NumShape(FALSE, "99999", "99999", FALSE, FALSE, ""), NumShape(FALSE, "12345", "12345", FALSE, FALSE, "px"),
-  NumShape(FALSE, "100.25", "100.25", TRUE, FALSE, ""), NumShape(TRUE, "1234.5", "1234.5", TRUE, FALSE, "e") >>
+  NumShape(FALSE, "100.25", "100.25", TRUE, FALSE, ""), NumShape(TRUE, "1234.5", "1234.5", TRUE, FALSE, "e"),
+  \* a colour without hex digits is black: with an alpha value, with alpha zero (46, 47; a bare "#" is a colour only at the very end of the abbreviation)
+  ColShape("", ".5"), ColShape("", ".0") >>
 Keys == << [key |-> "p",  prop |-> "padding",     unitless |-> FALSE, takes |-> "num"],
            [key |-> "m",  prop |-> "margin",      unitless |-> FALSE, takes |-> "num"],
            [key |-> "z",  prop |-> "z-index",     unitless |-> TRUE,  takes |-> "num"],
@@ -115,7 +117,8 @@ HexDigit(n) == SubSeq("0123456789abcdef", n + 1, n + 1)
 Hex2(n) == HexDigit(n \div 16) \o HexDigit(n % 16)
 Pair(a, b) == HexVal(a) * 16 + HexVal(b)
 Channels(d) == LET L == Len(d) IN
-               IF L = 1 THEN LET v == Pair(At(d, 1), At(d, 1)) IN <<v, v, v>>
+               IF L = 0 THEN <<0, 0, 0>>
+               ELSE IF L = 1 THEN LET v == Pair(At(d, 1), At(d, 1)) IN <<v, v, v>>
                ELSE IF L = 2 THEN LET v == Pair(At(d, 1), At(d, 2)) IN <<v, v, v>>
                ELSE IF L = 3 THEN <<Pair(At(d, 1), At(d, 1)), Pair(At(d, 2), At(d, 2)), Pair(At(d, 3), At(d, 3))>>
                ELSE <<Pair(At(d, 1), At(d, 2)), Pair(At(d, 3), At(d, 4)), Pair(At(d, 5), At(d, 6))>>
